@@ -8,6 +8,16 @@ BASELINE_OFF = ("cd /repo && cargo nextest run --workspace --no-fail-fast --test
 
 # id -> (engine, category, technique, level text, level note, design ref)
 CHECKS = {
+ "C11": ("E4", "model_checking",
+         "bounded-exhaustive input enumeration (all arrays over a 4-letter alphabet for small shapes) + enumerated structured families, against an independent f64 reference and metamorphic oracles",
+         "Every array over {-1,0,1,2} of the listed small shapes (quick 1.4e5, thorough 3.5e7 arrays) and every member of fixed structured families up to 16 chains x 5000 draws x 8 parameters is evaluated on the real split_rhat_mean_ess / RunStats / basic_stats and compared with sqrt(var+/W) computed in f64 on the half-chains (either variance-divisor convention, but one and the same on all inputs), plus lower bound, separation ladder, affine/permutation/other-parameter invariance and the run-summary order statistics incl. NaN robustness at every subset of positions.",
+         "Large shapes are covered by enumerated families, not exhaustively; comparison tolerance 3e-5 + 6*eps32*cond relative because the diagnostics are computed in f32.",
+         "DESIGN.md §3 C11"),
+ "C12": ("E4", "model_checking",
+         "bounded-exhaustive input enumeration + enumerated structured families against an f64 Stan-style ESS reference with direct O(n^2) autocovariance; set-valued reference at Geyer cuts inside the rounding margin; differential check across the brute-force/FFT switch",
+         "Same input spaces as C11. The compared quantity is tau = M*N/ESS (ESS itself is ill-conditioned near tau=0). Half-lengths 99/100/101/128/129/150 exercise both autocovariance algorithms on the same kind of series, paddings 256..8192 are crossed; affine, permutation and time-reversal invariance are checked on members whose cut is unambiguous; sanity bands on fixed iid / AR(1) members.",
+         "Geyer's cut is discontinuous: pair sums within 2e-5 of zero make the reference set-valued (counted in the evidence). Bands are non-generalising.",
+         "DESIGN.md §3 C12"),
  "C18": ("E4", "model_checking",
          "bounded-exhaustive input enumeration of the real helpers against purity/prefix/shape oracles",
          "Every (n,d) of the statement's own bounded domain (thorough: the full 0..256 square; quick: an 8x8 sub-grid) x 5 seeds x f32/f64 is evaluated on the real helpers; shape, finiteness, purity, init_det==seed 42, the prefix property and seed sensitivity are decided on each. The enumeration is complete within the stated grid, which is the right level for a pure function of three small integers.",
